@@ -54,6 +54,7 @@ Record lstate := {
   accts : gmap N acct;             (* account records (absent = never written)             *)
   stk : gmap N (Z * N);            (* aergo.system: staking record per account (amount, when) *)
   stk_total : Z;                   (* aergo.system: staking total                          *)
+  voted : gmap N bool;             (* aergo.system: the account has a BP vote record       *)
   names : gmap N (N * N);          (* aergo.name: name -> (owner, destination), buffered view *)
   names0 : gmap N (N * N);         (* aergo.name as committed at block start (GetInitialData) *)
   cstor : gmap N (gmap N Z);       (* user contract storages                               *)
@@ -61,23 +62,26 @@ Record lstate := {
   receipts : list receipt }.
 
 Definition with_accts (s : lstate) (m : gmap N acct) : lstate :=
-  {| accts := m; stk := stk s; stk_total := stk_total s; names := names s; names0 := names0 s;
+  {| accts := m; stk := stk s; stk_total := stk_total s; voted := voted s; names := names s; names0 := names0 s;
      cstor := cstor s; bp_reward := bp_reward s; receipts := receipts s |}.
 Definition with_stk (s : lstate) (m : gmap N (Z * N)) (t : Z) : lstate :=
-  {| accts := accts s; stk := m; stk_total := t; names := names s; names0 := names0 s;
+  {| accts := accts s; stk := m; stk_total := t; voted := voted s; names := names s; names0 := names0 s;
+     cstor := cstor s; bp_reward := bp_reward s; receipts := receipts s |}.
+Definition with_voted (s : lstate) (m : gmap N bool) : lstate :=
+  {| accts := accts s; stk := stk s; stk_total := stk_total s; voted := m; names := names s; names0 := names0 s;
      cstor := cstor s; bp_reward := bp_reward s; receipts := receipts s |}.
 Definition with_names (s : lstate) (m : gmap N (N * N)) : lstate :=
-  {| accts := accts s; stk := stk s; stk_total := stk_total s; names := m; names0 := names0 s;
+  {| accts := accts s; stk := stk s; stk_total := stk_total s; voted := voted s; names := m; names0 := names0 s;
      cstor := cstor s; bp_reward := bp_reward s; receipts := receipts s |}.
 Definition with_cstor (s : lstate) (m : gmap N (gmap N Z)) : lstate :=
-  {| accts := accts s; stk := stk s; stk_total := stk_total s; names := names s; names0 := names0 s;
+  {| accts := accts s; stk := stk s; stk_total := stk_total s; voted := voted s; names := names s; names0 := names0 s;
      cstor := m; bp_reward := bp_reward s; receipts := receipts s |}.
 Definition with_block (s : lstate) (r : Z) (rc : list receipt) : lstate :=
-  {| accts := accts s; stk := stk s; stk_total := stk_total s; names := names s; names0 := names0 s;
+  {| accts := accts s; stk := stk s; stk_total := stk_total s; voted := voted s; names := names s; names0 := names0 s;
      cstor := cstor s; bp_reward := r; receipts := rc |}.
 (** new block state on a committed state: initial view of aergo.name := current *)
 Definition begin_block (s : lstate) : lstate :=
-  {| accts := accts s; stk := stk s; stk_total := stk_total s; names := names s; names0 := names s;
+  {| accts := accts s; stk := stk s; stk_total := stk_total s; voted := voted s; names := names s; names0 := names s;
      cstor := cstor s; bp_reward := 0; receipts := [] |}.
 
 Definition acct_of (s : lstate) (id : N) : acct := default acct0 (accts s !! id).
@@ -129,9 +133,12 @@ Definition receipt_gas (v : Z) (zf isgov : bool) (fee gp : Z) : Z :=
 
 (* ------------------------------------------------------------------ transactions *)
 Inductive tx_kind := KTransfer | KNormal | KCall | KDeploy | KFeeDeleg
-                   | KStake | KUnstake | KNameCreate | KNameUpdate | KSetOwner.
+                   | KStake | KUnstake | KNameCreate | KNameUpdate | KSetOwner
+                   | KVoteBP        (* aergo.system v1voteBP: no balance effect, refreshes the staking timestamp *)
+                   | KEnterprise.   (* aergo.enterprise: the contract logic is an oracle (t_fddeny = it fails) *)
 Definition is_gov (k : tx_kind) : bool :=
-  match k with KStake | KUnstake | KNameCreate | KNameUpdate | KSetOwner => true | _ => false end.
+  match k with KStake | KUnstake | KNameCreate | KNameUpdate | KSetOwner | KVoteBP | KEnterprise => true | _ => false end.
+Definition is_ent (k : tx_kind) : bool := match k with KEnterprise => true | _ => false end.
 
 Record tx := {
   t_kind : tx_kind;
@@ -150,11 +157,13 @@ Record tx := {
 }.
 
 Definition recipient_of (t : tx) : N :=
-  match t_kind t with KStake | KUnstake => 1%N | KNameCreate | KNameUpdate | KSetOwner => 2%N | _ => t_to t end.
+  match t_kind t with
+  | KStake | KUnstake | KVoteBP => 1%N | KNameCreate | KNameUpdate | KSetOwner => 2%N | KEnterprise => 4%N
+  | _ => t_to t end.
 
 Record config := {
   c_version : Z; c_zerofee : bool; c_gas_price : Z; c_chain : N;
-  c_name_price : Z; c_stake_min : Z; c_stake_delay : N;
+  c_name_price : Z; c_stake_min : Z; c_stake_delay : N; c_vote_delay : N;
   c_fix_f24 : bool;  (* true = FEEDELEGATION debits the fee on the sender object when sender and
                         receiver are the same account (fixes/F24_*.diff)                     *)
   c_fix_f18 : bool   (* true = contract/name uses the sender's / receiver's own AccountState
@@ -391,10 +400,25 @@ Section Ledger.
     | _ => None
     end.
 
+  (** aergo.system v1voteBP (validateForVote + newVoteCmd/voteCmd.run): needs a non-zero stake; a second vote
+      must wait VotingDelay after the last staking action; the staking timestamp is refreshed.  Vote tallies
+      and the voting-power rank are not part of this model (Gov, C15). *)
+  Definition exec_vote (bno : N) (s : lstate) (t : tx) (sender receiver : astate) : option (lstate * astate * astate) :=
+    match stk s !! a_id sender with
+    | None => None
+    | Some (staked, w) =>
+      if staked =? 0 then None else
+      if (match voted s !! a_id sender with Some _ => true | None => false end) && (bno <? w + c_vote_delay cfg)%N then None else
+      Some (with_voted (with_stk s (<[a_id sender := (staked, bno)]> (stk s)) (stk_total s))
+                       (<[a_id sender := true]> (voted s)), sender, receiver)
+    end.
+
   Definition exec_governance (bno : N) (s : lstate) (t : tx) (sender receiver : astate) : option (lstate * astate * astate) :=
     match t_kind t with
     | KStake => exec_stake bno s t sender receiver
     | KUnstake => exec_unstake bno s t sender receiver
+    | KVoteBP => exec_vote bno s t sender receiver
+    | KEnterprise => None
     | _ => exec_name s t sender receiver
     end.
 
@@ -420,7 +444,10 @@ Section Ledger.
     let feedeleg := match t_kind t with KFeeDeleg => true | _ => false end in
     (* the switch on the type *)
     let r : option (cres * lstate * astate * astate * Z) :=
-      if is_gov (t_kind t) then
+      if is_ent (t_kind t) then
+        (* executeGovernanceTx wraps every enterprise error into GovEntErr (runtime class); fee 0 *)
+        Some ((if t_fddeny t then CRuntime else COk), s, sender, receiver, 0)
+      else if is_gov (t_kind t) then
         match exec_governance bno s t sender receiver with
         | Some (s', sender', receiver') => Some (COk, s', sender', receiver', 0)
         | None => Some (CNonRuntime, s, sender, receiver, 0)
